@@ -405,7 +405,15 @@ Fixpoint statement (fuel : nat) : P stmt :=
           | WDefint => pdo r <~ var_range ;; pdo c2 <~ pcolm ;; pret (SDefint c2 (fst r) (snd r))
           | WDefsng => pdo r <~ var_range ;; pdo c2 <~ pcolm ;; pret (SDefsng c2 (fst r) (snd r))
           | WDefstr => pdo r <~ var_range ;; pdo c2 <~ pcolm ;; pret (SDefstr c2 (fst r) (snd r))
-          | WDelete => pdo r <~ line_number_range ;; pret (SDelete c (fst r) (snd r))
+          | WDelete =>
+              pdo r <~ line_number_range ;;
+              (* a bare DELETE is refused; an explicit range such as "0-" is not *)
+              match fst r, snd r with
+              | ESng (a1, a2) _, ESng (b1, b2) _ =>
+                  if (a1 =? a2) && (b1 =? b2) then pfail E_IllegalFunctionCall c
+                  else pret (SDelete c (fst r) (snd r))
+              | _, _ => pret (SDelete c (fst r) (snd r))
+              end
           | WDim => pdo l <~ var_list f ;; pret (SDim c l)
           | WEnd => pret (SEnd c)
           | WErase =>
